@@ -20,5 +20,14 @@ def main(tier):
               'ids increase with creation order is proved as: every new id exceeds every id stored before the call'):
         chk.assume(a)
     inl = suggest.run(chk, 'C02', tier)
+    # engine-vs-CPython cross-check (DESIGN 2.8): the symbolic executor on fully concrete scenarios must predict what
+    # the real service does; a disagreement means the VC generator or a model is wrong: checker error, not a violation
+    from contracts import suggest_bounded
+    n = 3 if tier == 'quick' else 40
+    good, bad = suggest_bounded.cross_check(n, seed=chk.seed)
+    chk.bounded_standin('engine_cross_check.SuggestTrials', '%d random concrete scenarios (<=2 stored trials in random states, count 1..3, Pythia delivering 0..3 or raising), '
+                        'engine prediction vs real service' % n, 'agree' if not bad else 'DISAGREE', detail=bad[:3])
+    if bad:
+        chk.error('engine_cross_check.SuggestTrials', 'the symbolic executor and CPython disagree on a concrete scenario: %s' % str(bad[:2])[:600])
     chk.extra['inlined_real_functions'] = sorted(inl)
     return chk.finish(min_obligations=40)
